@@ -120,6 +120,7 @@ type Obligation struct {
 	Ctx    *Ctx
 	Cover  bool
 	NoAxioms bool
+	Bounded bool
 	Axioms []*Term
 	Tier string
 	Logic  string
